@@ -59,12 +59,11 @@ def promotion(tier='quick', seed=0):
             'evaluations': evals, 'exhaustive': True, 'functions': ['array_.Array._promotetype'], 'summary': f'{evals} ordered pairs'}
 
 
-def _list_case(seed, i):
+def _list_case_inner(rng, lsb0):
     """one randomly chosen list operation on one randomly chosen Array against the Python list model -> (ok, description);
     deterministic in (seed, i), so a failure replays by calling it again"""
     import bitstring
     from bitstring import Array, BitArray, Dtype
-    rng = random.Random(seed * 1000003 + i)
     specs = [('uint8', lambda: rng.randrange(256)), ('int5', lambda: rng.randrange(-16, 16)), ('uintle16', lambda: rng.randrange(65536)),
              ('float32', lambda: rng.choice([0.0, 1.5, -2.25, 1024.0])), ('bytes2', lambda: bytes(rng.randrange(256) for _ in range(2))),
              ('hex4', lambda: rng.choice('0123456789abcdef')), ('bool', lambda: rng.random() < 0.5), ('>h', lambda: rng.randrange(-2 ** 15, 2 ** 15))]
@@ -77,6 +76,8 @@ def _list_case(seed, i):
         w = a.itemsize
         model = list(vals)
         op = rng.choice(['slice', 'setslice', 'setslice_array', 'delslice', 'reverse', 'tolist', 'iter', 'count', 'equals', 'copy', 'extend', 'insert', 'pop', 'len', 'dtype'])
+        if lsb0 and op == 'len':
+            op = 'tolist'        # (the data-layout clause of 'len' is stated for msb0)
         desc = f'Array({dt!r}, {vals!r}, trailing_bits={trailing!r}).{op}'
         tb = a.trailing_bits.bin
         if op == 'slice':
@@ -189,13 +190,28 @@ def _list_case(seed, i):
     return ok, desc
 
 
+def _list_case(seed, i):
+    """deterministic in (seed, i); a quarter of the cases run with options.lsb0 set (an Array is a list of items in either
+    bit numbering)"""
+    import bitstring
+    rng = random.Random(seed * 1000003 + i)
+    lsb0 = rng.random() < 0.25
+    saved = bitstring.options.lsb0
+    bitstring.options.lsb0 = lsb0
+    try:
+        ok, desc = _list_case_inner(rng, lsb0)
+    finally:
+        bitstring.options.lsb0 = saved
+    return ok, ('[lsb0] ' if lsb0 else '') + desc
+
+
 def list_model(tier='quick', seed=0):
     import bitstring
     from bitstring import Array, BitArray, Dtype
     rng = random.Random(seed)
     fails = []
     evals = 0
-    N = 400 if tier == 'quick' else 6000
+    N = 4000 if tier == 'quick' else 300000
     for i in range(N):
         evals += 1
         ok, desc = _list_case(seed, i)
